@@ -423,11 +423,8 @@ func (v *View) checkC03(res *Result) {
 				run = nil
 				continue
 			}
-			conflict := c.Apply >= 0 && !c.OK // revision conflict: clause (a), not a reachability failure
-			if conflict {
-				run = nil
-				continue
-			}
+			// (a refresh rejected for a revision conflict is a failed refresh too: correct code
+			// steps down at the first one, which satisfies "by the third" a fortiori)
 			run = append(run, c)
 			res.Obs["c03.b_failed_attempts"]++
 			if len(run) < 3 {
